@@ -187,7 +187,17 @@ static int ndups;
 
 static const uint16_t pool_depth[] = { 0, 0, 1, 2, 8 };
 
-static bool checking(void) { return !sim_violation_class(); }
+/* a transfer manager with a short command / event queue that overflowed: the
+ * library says so (error code, fatal event) and what was in the message is
+ * lost - a release, a command, the death notice of a remote pipe. That is the
+ * application's configuration against its own load, nothing is judged after
+ * that point (DESIGN.md 7.4) */
+static bool short_xferq, xfer_overflow;
+static bool checking(void) { return !sim_violation_class() && !xfer_overflow; }
+#define control_failed(...) do { \
+        if (short_xferq) { xfer_overflow = true; SIM_PROBE("thr_short_xfer_queue_overflow"); } \
+        else sim_violation(V_CONTROL, __VA_ARGS__); \
+    } while (0)
 
 /* ----------------------------------------------------------------- probes */
 enum { TAG_APP = 1, TAG_REMOTE };
@@ -202,6 +212,8 @@ static struct uprobe *logger;            /* uprobe_pthread_upump_mgr on top of p
 static unsigned fwd_thrown, fwd_accepted, fwd_arrived;
 static uint64_t fwd_last;
 #define EV_FWD (UPROBE_LOCAL + 0x42)
+#define EV_VOID (UPROBE_LOCAL + 0x43)      /* registered for transfer without argument */
+static unsigned void_thrown, void_accepted, void_arrived;
 #define EV_FWD_SIG UBASE_FOURCC('e','t','h','r')
 
 static bool on_worker_side_ok(void)
@@ -242,7 +254,18 @@ static int tag_catch(struct uprobe *uprobe, struct upipe *upipe, int event, va_l
             fwd_last = v;
             return UBASE_ERR_NONE;
         }
+        if (event == EV_VOID) {
+            void_arrived++;
+            sim_ev("void_arrived", void_arrived, 0);
+            return UBASE_ERR_NONE;
+        }
     } else if (p->tag == TAG_REMOTE) {
+        /* this probe sits behind uprobe_xfer: an event registered for
+         * transfer is the application's, in the application's thread - never
+         * seen here, whether it could be queued or not */
+        if ((event == EV_FWD || event == EV_VOID || event == UPROBE_SOURCE_END) && checking())
+            sim_violation(V_EVENT_THREAD, "event %d, registered for transfer to the application, reached the probes behind "
+                          "uprobe_xfer on thread %d (application is thread %d)", event, me, APP);
         if (transferred && event != UPROBE_READY && !on_worker_side_ok() && checking())
             sim_violation(V_EVENT_THREAD, "event %d of a transferred pipe thrown on thread %d "
                           "(worker is thread %d, loop %s)", event, me, worker_task,
@@ -270,6 +293,10 @@ static int root_catch(struct uprobe *uprobe, struct upipe *upipe, int event, va_
                buf);
     } else if (sim_verbose && event != UPROBE_LOG)
         printf("      event[t%d %p] %d\n", sim_self(), (void *)upipe, event);
+    if (event == UPROBE_FATAL && short_xferq && !xfer_overflow) {
+        xfer_overflow = true;
+        SIM_PROBE("thr_short_xfer_queue_overflow");
+    }
     return UBASE_ERR_UNHANDLED;
 }
 
@@ -506,7 +533,17 @@ static void rmock_input(struct upipe *upipe, struct uref *uref, struct upump **u
         int err = upipe_throw(upipe, EV_FWD, (uint64_t)fwd_thrown);
         if (ubase_check(err))
             fwd_accepted++;
+        else
+            SIM_PROBE("thr_fwd_event_refused_queue_full");
         sim_ev("fwd_thrown", fwd_thrown, (uint64_t)err);
+        /* and a few of the argument-less kind (they fill a short queue) */
+        for (unsigned k = 0; k < r->inputs % 4; k++) {
+            void_thrown++;
+            if (ubase_check(upipe_throw(upipe, EV_VOID)))
+                void_accepted++;
+            else
+                SIM_PROBE("thr_fwd_event_refused_queue_full");
+        }
     }
     if (r->role == ROLE_LINEAR) {
         rmock_output(upipe, uref, upump_p);
@@ -908,6 +945,7 @@ static struct uprobe *remote_probe_chain(void)
     struct uprobe *x = uprobe_xfer_alloc(uprobe_use(&probe_remote.uprobe));
     uprobe_xfer_add(x, UPROBE_XFER_VOID, UPROBE_SOURCE_END, 0);
     uprobe_xfer_add(x, UPROBE_XFER_UINT64_T, EV_FWD, 0);
+    uprobe_xfer_add(x, UPROBE_XFER_VOID, EV_VOID, 0);
     return x;
 }
 
@@ -934,7 +972,12 @@ static void build_worker(void)
     unsigned outq = 1 + (unsigned)((uint64_t)plan->cfg[CFG_OUTQ] % 4);
     if ((uint64_t)plan->cfg[CFG_INQ] % 16 == 15)
         inq = 255 + 3;          /* longer than a uqueue: spills into max_length */
-    unsigned xferq = 255;
+    /* length of the command queue of the transfer manager and of the event
+     * queue of every handle: mostly the largest there is, sometimes short */
+    static const unsigned xferqs[] = { 255, 255, 255, 255, 255, 255, 16, 8, 5 };
+    unsigned xferq = xferqs[(uint64_t)plan->cfg[CFG_XFERQ] % 9];
+    short_xferq = xferq != 255;
+    xfer_overflow = false;
     if ((uint64_t)plan->cfg[CFG_MUTEX] & 1) {
         mutex = umutex_pthread_alloc(NULL);
         /* layout of struct umutex_pthread (lib/upipe-pthread/umutex_pthread.c) */
@@ -947,7 +990,7 @@ static void build_worker(void)
             worker_mgr_alloc, pool_depth[(uint64_t)plan->cfg[CFG_PUMP_POOL] % 5],
             pool_depth[(uint64_t)plan->cfg[CFG_PUMP_POOL] % 5], mutex, NULL, NULL);
     if (xfer_mgr == NULL) {
-        sim_violation(V_CONTROL, "upipe_pthread_xfer_mgr_alloc failed");
+        control_failed( "upipe_pthread_xfer_mgr_alloc failed");
         return;
     }
     struct upipe_mgr *work_mgr = upipe_work_mgr_alloc(xfer_mgr);
@@ -997,7 +1040,7 @@ static void build_worker(void)
     if (attach_mode)
         uprobe_throw(logger, NULL, UPROBE_THAW_UPUMP_MGR);
     if (handle == NULL) {
-        sim_violation(V_CONTROL, "worker pipe allocation failed");
+        control_failed( "worker pipe allocation failed");
         return;
     }
     if (attach_mode == 1)
@@ -1006,7 +1049,7 @@ static void build_worker(void)
         struct upipe *s0 = asink_new(0);
         asink_new(1);
         if (!ubase_check(upipe_set_output(handle, s0)))
-            sim_violation(V_CONTROL, "set_output on the worker pipe failed");
+            control_failed( "set_output on the worker pipe failed");
     }
 }
 
@@ -1076,7 +1119,7 @@ static void do_op(const struct sim_op *op)
         uref_free(fd);
         if (!ubase_check(err)) {
             if (checking())
-                sim_violation(V_CONTROL, "set_flow_def on the handle failed (%d)", err);
+                control_failed( "set_flow_def on the handle failed (%d)", err);
             break;
         }
         cur_gen++;
@@ -1090,7 +1133,7 @@ static void do_op(const struct sim_op *op)
             break;
         int err = upipe_set_output(handle, &s->upipe);
         if (!ubase_check(err) && checking())
-            sim_violation(V_CONTROL, "set_output on the worker pipe failed (%d)", err);
+            control_failed( "set_output on the worker pipe failed (%d)", err);
         /* the new sink has not negotiated anything yet */
         cons.gen = 0;
         SIM_PROBE("thr_set_output_app_side");
@@ -1104,9 +1147,9 @@ static void do_op(const struct sim_op *op)
         int err = upipe_control(handle, RMOCK_SET_OPTION, RMOCK_SIGNATURE);
         if (mutex == NULL) {
             if (err != UBASE_ERR_UNHANDLED && checking())
-                sim_violation(V_CONTROL, "a command forwarded to the remote pipe without any mutex returned %d", err);
+                control_failed( "a command forwarded to the remote pipe without any mutex returned %d", err);
         } else if (!ubase_check(err) && topo != TOPO_WSRC && checking())
-            sim_violation(V_CONTROL, "a command forwarded to the frozen remote pipe returned %d", err);
+            control_failed( "a command forwarded to the frozen remote pipe returned %d", err);
         SIM_PROBE("thr_ctrl_auto_freeze");
         break;
     }
@@ -1115,7 +1158,7 @@ static void do_op(const struct sim_op *op)
             break;
         if (!ubase_check(upipe_bin_freeze(handle))) {
             if (checking())
-                sim_violation(V_CONTROL, "upipe_bin_freeze failed although a mutex was given");
+                control_failed( "upipe_bin_freeze failed although a mutex was given");
             break;
         }
         app_frozen = true;
@@ -1156,7 +1199,7 @@ static void do_op(const struct sim_op *op)
         a->have_value = false;
         int err = upipe_register_request(handle, &a->urequest);
         if (!ubase_check(err) && checking())
-            sim_violation(V_CONTROL, "register_request on the handle failed (%d)", err);
+            control_failed( "register_request on the handle failed (%d)", err);
         SIM_PROBE("thr_req_registered");
         break;
     }
@@ -1170,7 +1213,7 @@ static void do_op(const struct sim_op *op)
         a->registered = false;
         urequest_clean(&a->urequest);
         if (!ubase_check(err) && checking())
-            sim_violation(V_CONTROL, "unregister_request on the handle failed (%d)", err);
+            control_failed( "unregister_request on the handle failed (%d)", err);
         break;
     }
     case OP_REQ_PROVIDE: {
@@ -1205,7 +1248,7 @@ static void req_final_answers(void)
         if (mutex != NULL && handle != NULL) {
             int err = upipe_control(handle, RMOCK_ANSWER_ALL, RMOCK_SIGNATURE);
             if (!ubase_check(err) && checking())
-                sim_violation(V_CONTROL, "a command forwarded to the frozen remote sink returned %d", err);
+                control_failed( "a command forwarded to the frozen remote sink returned %d", err);
         }
         return;
     }
@@ -1370,6 +1413,8 @@ static void final_audit(void)
         }
     if (fwd_arrived > fwd_accepted)
         sim_violation(V_EVENT_LOST, "%u forwarded events arrived, %u were accepted", fwd_arrived, fwd_accepted);
+    else if (void_arrived > void_accepted)
+        sim_violation(V_EVENT_LOST, "%u forwarded argument-less events arrived, %u were accepted", void_arrived, void_accepted);
 }
 
 static void release_env_and_leak_audit(void)
@@ -1471,6 +1516,7 @@ static void reset_state(void)
     settle_phase = 0;
     settle_first_value = 0;
     fwd_thrown = fwd_accepted = fwd_arrived = 0;
+    void_thrown = void_accepted = void_arrived = 0;
     fwd_last = 0;
     src_end_seen = false;
     attached_late = false;
@@ -1495,6 +1541,7 @@ static void gen(const char *pr, struct sim_rng *r, struct sim_plan *p)
         p->cfg[CFG_TOPO] = TOPO_WSINK;
     p->cfg[CFG_INQ] = sim_rng_below(r, 16);
     p->cfg[CFG_OUTQ] = sim_rng_below(r, 4);
+    p->cfg[CFG_XFERQ] = sim_rng_below(r, 9);
     p->cfg[CFG_MUTEX] = sim_rng_chance(r, 1, 2);
     p->cfg[CFG_CHAIN] = sim_rng_below(r, 3);
     p->cfg[CFG_SLOW] = sim_rng_chance(r, 1, 3) ? 1 + sim_rng_below(r, 3000) : 0;
@@ -1565,7 +1612,7 @@ static void run(const char *pr, const struct sim_plan *pl)
     enum sim_end end = sim_run(400000);
     sim_mark_nontrivial();
     sim_sig_add(1, sim_mix((uint64_t)topo, sim_mix(cons.inputs, sim_mix(cons.flow_defs, fwd_arrived))));
-    if (sim_violation_class())
+    if (sim_violation_class() || xfer_overflow)
         return;
     if (end == SIM_END_BUDGET) {
         SIM_PROBE("thr_budget_exhausted");
